@@ -18,53 +18,67 @@ def rectOf (r : Rect) : image_Rectangle := ⟨⟨r.minX, r.minY⟩, ⟨r.maxX, r
 /-- the model rectangle of a Go `image.Rectangle` -/
 def rectTo (r : image_Rectangle) : Rect := ⟨r.Min.X, r.Min.Y, r.Max.X, r.Max.Y⟩
 
+tolerant
 @[simp] theorem rectTo_rectOf (r : Rect) : rectTo (rectOf r) = r := rfl
+tolerant
 @[simp] theorem rectOf_rectTo (r : image_Rectangle) : rectOf (rectTo r) = r := rfl
 
 /-- the model viewBox of a Go `ivg.ViewBox` (inverse of `vbOf`) -/
 def vbTo (v : ivg_ViewBox) : ViewBox F32 := ⟨v.MinX, v.MinY, v.MaxX, v.MaxY⟩
+tolerant
 @[simp] theorem vbTo_vbOf (v : ViewBox F32) : vbTo (vbOf v) = v := rfl
+tolerant
 @[simp] theorem vbOf_vbTo (v : ivg_ViewBox) : vbOf (vbTo v) = v := rfl
 
+tolerant
 /-- image/geom.go `Rectangle.Dx` -/
 theorem rectangle_Dx_code_tie (r : Rect) : image_Rectangle_Dx (rectOf r) = r.dx := by
   simp only [image_Rectangle_Dx, rectOf, Rect.dx]
 
+tolerant
 /-- image/geom.go `Rectangle.Dy` -/
 theorem rectangle_Dy_code_tie (r : Rect) : image_Rectangle_Dy (rectOf r) = r.dy := by
   simp only [image_Rectangle_Dy, rectOf, Rect.dy]
 
 variable (z : Renderer F32 F64)
 
+tolerant
 /-- render.go `(*Renderer).absX` -/
 theorem renderer_absX_code_tie (x : F32) : render_Renderer_absX z.scaleX z.biasX x = z.absX x := by
   simp only [render_Renderer_absX, Renderer.absX]
 
+tolerant
 /-- render.go `(*Renderer).absY` -/
 theorem renderer_absY_code_tie (y : F32) : render_Renderer_absY z.scaleY z.biasY y = z.absY y := by
   simp only [render_Renderer_absY, Renderer.absY]
 
+tolerant
 /-- render.go `(*Renderer).relX` -/
 theorem renderer_relX_code_tie (x : F32) : render_Renderer_relX z.scaleX x = z.relX x := by
   simp only [render_Renderer_relX, Renderer.relX]
 
+tolerant
 /-- render.go `(*Renderer).relY` -/
 theorem renderer_relY_code_tie (y : F32) : render_Renderer_relY z.scaleY y = z.relY y := by
   simp only [render_Renderer_relY, Renderer.relY]
 
+tolerant
 /-- render.go `(*Renderer).unabsX` -/
 theorem renderer_unabsX_code_tie (x : F32) : render_Renderer_unabsX z.scaleX z.biasX x = z.unabsX x := by
   simp only [render_Renderer_unabsX, Renderer.unabsX]
 
+tolerant
 /-- render.go `(*Renderer).unabsY` -/
 theorem renderer_unabsY_code_tie (y : F32) : render_Renderer_unabsY z.scaleY z.biasY y = z.unabsY y := by
   simp only [render_Renderer_unabsY, Renderer.unabsY]
 
+tolerant
 /-- render.go `(*Renderer).absVec2` (the model uses the pair `(z.absX x, z.absY y)` wherever Go calls `absVec2`) -/
 theorem renderer_absVec2_code_tie (x y : F32) :
     render_Renderer_absVec2 z.scaleX z.biasX z.scaleY z.biasY x y = (z.absX x, z.absY y) := by
   simp only [render_Renderer_absVec2, renderer_absX_code_tie, renderer_absY_code_tie]
 
+tolerant
 /-- render.go `(*Renderer).recalcTransform`: the four values the Go method stores in `scaleX, biasX, scaleY, biasY`
     are those of the model, -/
 theorem renderer_recalcTransform_code_tie :
@@ -74,6 +88,7 @@ theorem renderer_recalcTransform_code_tie :
     rectangle_Dy_code_tie, vbOf, Go.cvt_int_f32]
   rfl
 
+tolerant
 /-- … and the model's `recalcTransform` changes no other field: it is the record update with the Go results. -/
 theorem renderer_recalcTransform_code_tie_frame :
     z.recalcTransform =
